@@ -68,7 +68,6 @@ structure C08St where
   spec : Spec08
   pend : List (Nat × ROp)
   acted : List (Nat × RRes)
-  busy : Option Nat            -- a spawning lookup that has not returned yet (it still holds the lock)
 
 def C08St.findPend (s : C08St) (o : Nat) : Option ROp := (s.pend.find? (fun p => p.1 == o)).map (·.2)
 def C08St.findActed (s : C08St) (o : Nat) : Option RRes := (s.acted.find? (fun p => p.1 == o)).map (·.2)
@@ -77,7 +76,7 @@ def C08St.done (s : C08St) (o : Nat) (sp : Spec08) (r : RRes) : C08St :=
   { s with spec := sp, pend := s.pend.filter (fun p => p.1 != o), acted := (o, r) :: s.acted }
 
 def monC08 : RMon C08St where
-  init := { spec := { reg := fun _ => none, dead := [] }, pend := [], acted := [], busy := none }
+  init := { spec := { reg := fun _ => none, dead := [] }, pend := [], acted := [] }
   step st l :=
     match l with
     | .rbegin o op =>
@@ -86,23 +85,18 @@ def monC08 : RMon C08St where
         | .tryFrom _ => none
         | _ => some { st with pend := st.pend ++ [(o, op)] })
     | .ract o =>
-      if st.busy.isSome then none else
       (match st.findPend o with
        | some op => (st.spec.apply op).map (fun (sp, r) => st.done o sp r)
        | none => none)
     | .rspawn o i =>
-      if st.busy.isSome then none else
       (match st.findPend o with
-       | some op => (st.spec.spawn i op).map (fun (sp, r) => { (st.done o sp r) with busy := some o })
+       | some op => (st.spec.spawn i op).map (fun (sp, r) => st.done o sp r)
        | none => none)
     | .rret o r =>
-      if st.findActed o = some r then
-        some { st with acted := st.acted.filter (fun p => p.1 != o),
-                       busy := (if st.busy = some o then none else st.busy) }
-      else none
+      if st.findActed o = some r then some { st with acted := st.acted.filter (fun p => p.1 != o) } else none
     | .rsync (.tryFrom k) r =>
-      -- never a terminated or unregistered instance; `none` is allowed while a lookup holds the lock
-      if r = .prev (if st.busy.isSome then none else st.spec.live k) then some st else none
+      -- never a terminated or unregistered instance (`None` is always allowed: the lock may be contended)
+      if r = .prev none || r = .prev (st.spec.live k) then some st else none
     | .rsync _ _ => none
     | .term i => some { st with spec := { st.spec with dead := i :: st.spec.dead } }
 
